@@ -5,7 +5,7 @@ OUT=os.path.join(os.path.dirname(os.path.abspath(__file__)), '..', '..', 'spec',
 BASE=dict(
   Sessions='{1}', Accounts='{"a1"}', Pools='{"p1"}',
   PFree=3, PStorB=1024, PIngr=2, PCollB=2048, PRoots=1, PEgr=1, PWstor=442368, PIngr4k=2, PVerify=1024,
-  DevFreeAlias='FALSE', DevReplDup='FALSE', Family='"roots"', InitSizes='{0, 1, 2, 3, 4}', NSectors=4,
+  RenewDist=2, RefreshDist=2, DevFreeAlias='FALSE', DevReplDup='FALSE', Family='"roots"', InitSizes='{0, 1, 2, 3, 4}', NSectors=4,
   UnknownSector=9, NewSector=8, Allowance=100000000, Collateral=100000000, CPrice=5, MaxNum=2, MaxIdxLen=4,
   Edges='FALSE', PF='{"ok", "expired"}', CF='{"ok", "badsig"}', SF='{"ok", "bad"}', TF='{"ok"}', Amts='{1}',
   Signers='{"x"}', RenewKinds='{"renew"}', MaxExchanges=1, Dur=164, TipChoices='{0}')
@@ -55,12 +55,12 @@ emit('Host_roots_lemma_neg.cfg','''C09 self-test: the list-model lemma is NOT tr
 # ---------------- trace validation (all families)
 def emit_trace(name, comment, over):
     c=dict(BASE); c.update(over)
-    keys=['Sessions','Accounts','Pools','PFree','PStorB','PIngr','PCollB','PRoots','PEgr','PWstor','PIngr4k','PVerify','DevFreeAlias','DevReplDup']
+    keys=['Sessions','Accounts','Pools','PFree','PStorB','PIngr','PCollB','PRoots','PEgr','PWstor','PIngr4k','PVerify','RenewDist','RefreshDist','DevFreeAlias','DevReplDup']
     lines=['\\* '+l for l in comment.strip().split('\n')]
     lines+=['SPECIFICATION TraceSpec','CONSTANTS']+['  %s = %s'%(k,c[k]) for k in keys]
     lines+=['CONSTRAINT HWM','INVARIANTS RootsMatchRevision DoublySigned NonNegative AttachedExist SolventContract','POSTCONDITION TraceAccepted','CHECK_DEADLOCK FALSE']
     open(os.path.join(OUT,name),'w').write('\n'.join(lines)+'\n')
-TR=dict(Sessions='{1, 2, 3, 4}', Accounts='{"a1", "a2", "a3"}', Pools='{"p1", "p2"}')
+TR=dict(RenewDist=8, RefreshDist=19, Sessions='{1, 2, 3, 4}', Accounts='{"a1", "a2", "a3"}', Pools='{"p1", "p2"}')
 emit_trace('HostTrace.cfg','''Leg T of C09 / C15 / C08: every event recorded from the real host must be a Host action with the logged
 arguments, reply, calls and post-state (unit prices are those of harness/hostx DefaultPrices)''',TR)
 
